@@ -1680,6 +1680,17 @@ impl<'a> World<'a> {
                 self.ledger.stats.fault("inj_random_bytes");
                 self.do_recv(b, origin, "inj:random".into());
             }
+            "bigfp" => {
+                let a = (kv_u64(kv, "attr", 65516) as usize).min(65520);
+                let mut id = [0u8; 12];
+                id[0] = 0x42;
+                id[11] = k as u8;
+                let mut b = wire::Builder::new(wire::C_INDICATION, 1, &id);
+                b.push_attr(0x8055, &vec![0xab; a]);
+                b.push_fingerprint();
+                self.ledger.stats.fault("inj_valid_message_near_64k");
+                self.do_recv(b.finish(), origin, "inj:bigfp".into());
+            }
             "timeout" => {
                 self.ledger.stats.fault("timer_spurious");
                 self.do_timeout(None, true);
@@ -1877,6 +1888,11 @@ impl<'a> World<'a> {
                         *rng.pick(&["auto", "auto", "none", "bad", "wrongkey", "other", "both", "mi", "sha"]),
                         if rng.chance(1, 5) { *rng.pick(&[" fp=none", " fp=bad", " fp=force"]) } else if rng.chance(1, 4) { *rng.pick(&[" usetx=0", " usetx=1", " usetx=2"]) } else { "" }
                     ),
+                    4 if rng.chance(1, 12) => {
+                        // a valid message close to the 16-bit limits: one large attribute, then FINGERPRINT at an
+                        // attribute offset around 65,516 (offsets and lengths that no longer fit once 20 is added)
+                        format!("t={} kind=bigfp attr={}", at, *rng.pick(&[65496u64, 65500, 65504, 65508, 65512, 65516, 65520, 65519, 32768, 65000]))
+                    }
                     4 => format!(
                         "t={} kind=random seed={} n={}{}",
                         at,
